@@ -57,6 +57,8 @@ def edge_condition(fn, src, dst):
             return [(('switch', t.ops[0], tuple(vals)), True)]
     return []
 
+SWAP_PRED = {'slt': 'sgt', 'sgt': 'slt', 'sle': 'sge', 'sge': 'sle', 'ult': 'ugt', 'ugt': 'ult', 'ule': 'uge', 'uge': 'ule', 'eq': 'eq', 'ne': 'ne'}
+
 def implied_atoms(fn, cond, truth, depth=0):
     """comparisons (icmp instruction, truth) that necessarily hold when the i1 value `cond` has value `truth`:
     !x, a && b (true), a || b (false) and their select forms are decomposed"""
@@ -116,6 +118,9 @@ class Facts:
         if d.op == 'icmp':
             pred = d.pred if truth else NEG[d.pred]
             a, b = self.norm(d.ops[0]), self.norm(d.ops[1])
+            # constants (and null) on the right-hand side, whichever way the comparison is written
+            if (INT.match(a) or a == 'null') and not (INT.match(b) or b == 'null'):
+                a, b, pred = b, a, SWAP_PRED[pred]
             self.facts.append((pred, a, b))
             self.raw.append((d, truth))
         elif d.op == 'xor' and 'true' in d.ops:          # !cond
